@@ -1,0 +1,45 @@
+"""
+Module to provide optional, low-overhead event recording for external verification
+harnesses.  Everything in this module is a no-op unless the environment variable
+PYMARKDOWN_VERIF is set to "1" when the module is first imported.
+
+Events are dictionaries with an "ev" name, a per-process sequence number "seq" and
+event specific scalar fields.  They are handed to an in-process sink (if one was
+installed with `set_sink`) and/or appended as one JSON document per line to the
+file named by PYMARKDOWN_VERIF_TRACE.
+"""
+
+import json
+import os
+from typing import Any, Callable, Dict, Optional
+
+ENABLED = os.environ.get("PYMARKDOWN_VERIF") == "1"
+
+__SINK: Optional[Callable[[Dict[str, Any]], None]] = None
+__SEQUENCE = 0
+
+
+def set_sink(new_sink: Optional[Callable[[Dict[str, Any]], None]]) -> None:
+    """
+    Install (or remove, with None) an in-process receiver for events.
+    """
+    global __SINK  # pylint: disable=global-statement
+    __SINK = new_sink
+
+
+def emit(event_name: str, **fields: Any) -> None:
+    """
+    Record one event.  Must be called after the state change it describes.
+    """
+    global __SEQUENCE  # pylint: disable=global-statement
+    if not ENABLED:
+        return
+    __SEQUENCE += 1
+    record: Dict[str, Any] = {"ev": event_name, "seq": __SEQUENCE}
+    record.update(fields)
+    if __SINK is not None:
+        __SINK(record)
+    trace_file = os.environ.get("PYMARKDOWN_VERIF_TRACE")
+    if trace_file:
+        with open(trace_file, "at", encoding="utf-8") as output_file:
+            output_file.write(json.dumps(record, default=str) + "\n")
